@@ -269,7 +269,10 @@ def run_unit(unit, verify_args, tier, seed, prefixes=None, pre=None):
         if r_ is None:
             return res
         more = [x for x in derive_pulls(r_) if x not in pulls]
-        dem = {} if more else {k: v for k, v in derive_demotions(res, r_).items() if k not in demote}
+        # a function that still does not compile after its body was dropped (the error is in its signature, e.g. a type the
+        # template does not import) is left out altogether in the next round
+        dem = {} if more else {k: (v if k not in demote else "DROP:" + v) for k, v in derive_demotions(res, r_).items()
+                               if k not in demote or not demote[k].startswith("DROP:")}
         if (not more and not dem) or round_ == 5:
             return res
         # R25: retry with the missing functions pulled in (without contracts); demotion: retry with the functions whose bodies the
@@ -376,9 +379,37 @@ def _run_unit_once(unit, verify_args, tier, seed, prefixes, res, pulls, demote=N
     # modularity: an obligation that fails in a function which calls a helper the change introduced (pulled in by R25 without a
     # contract) cannot be told apart from "the helper needs a contract": undecided, never an alarm
     unc = {(f["file"], f["path"].split("#")[0]): f.get("calls_uncontracted") for f in meta["functions"] if f.get("calls_uncontracted")}
+    for (ty_, fn_) in meta.get("pulled", []):
+        for f in meta["functions"]:
+            if f["path"].split("#")[0].split("::")[-1] == fn_ and (f["file"], f["path"].split("#")[0]) not in unc:
+                # the pulled helper itself has no contract either (no precondition): a failing implicit obligation in it may only
+                # need the precondition its call sites establish
+                unc[(f["file"], f["path"].split("#")[0])] = [fn_ + " (itself: pulled in without a precondition)"]
+    # library calls: an obligation that fails in a function whose body now calls a library function it did not call on the pinned
+    # tree (and that the unit does not define) may fail only because that function's specification is weaker than the proof needs
+    # (e.g. vstd says nothing about `<[T]>::get_mut` returning None): undecided, never an alarm.  Names with precise vstd
+    # specifications that realistic changes use are exempt.
+    PRECISE = {"checked_add", "checked_sub", "checked_mul", "wrapping_add", "wrapping_sub", "saturating_add", "saturating_sub", "min", "max",
+               "len", "is_some", "is_none", "is_ok", "is_err", "unwrap", "unwrap_or", "expect", "ok_or", "is_empty", "push", "new", "from", "into",
+               "clone", "take", "replace", "swap", "insert", "remove", "contains_key", "get", "try_from", "try_into", "as_ref", "as_mut", "ok", "err",
+               "sleep", "sleep_until", "timeout", "now",      # modelled by the ghost clock (R21)
+               "first", "last", "abs_diff", "pow", "leading_zeros", "trailing_zeros", "to_be_bytes", "to_le_bytes", "from_be_bytes", "from_le_bytes", "drop", "default"}
+    gen_text = open(rs).read()
+    weak = {}
+    for f in meta["functions"]:
+        nc = [n for n in f.get("new_calls", []) if n not in PRECISE and not re.search(r"\bfn\s+" + re.escape(n) + r"\b", gen_text)]
+        if nc:
+            weak[(f["file"], f["path"].split("#")[0])] = nc
+    inlined = {(f["file"], f["path"].split("#")[0]) for f in meta["functions"] if f.get("inlined")}
     kept = []
     for f in failures:
         key = (f.get("file"), str(f.get("fn", "")).split("#")[0])
+        if key in inlined:
+            continue        # R31: the helper's body is checked where it was inlined (with the caller's facts); its standalone copy has no precondition
+        if key in weak:
+            terrs.append(f"needs specification: {f.get('obligation')} fails in a function that now calls {', '.join(weak[key])}, library function(s) it did not call "
+                         f"on the pinned tree and whose specification the proofs of this function were not written against")
+            continue
         if key in unc:
             terrs.append(f"needs contract: {f.get('obligation')} fails in a function that calls {', '.join(unc[key])}, "
                          f"for which no contract exists in this run (a helper the change introduced, pulled in by R25)")
